@@ -29,6 +29,7 @@ INVARIANTS
   PhaseInv
   NoPanic
   NoInternalError
+  IdsBounded
 PROPERTIES
   BuildKeepsItems
   RejectedChangesNothing
